@@ -106,11 +106,38 @@ def corrupt(rng, s):
     return s[:i] + rng.choice(['(', ')', '[', ']', '{', '}', '"', "'", ',', ':', ' ', '']) + s[i + 1:]
 
 
+# C17 names the kind of error for each kind of fault: malformed text -> parse error; unknown variable or function, wrong number of
+# arguments -> interpret error; wrong type of a top-level argument, unknown bucket -> function error.  One text per case and built-in.
+ERROR_KINDS = [
+    ('RETURN = nosuchvar;', 'QueryInterpretException'), ('x = 1; RETURN = y;', 'QueryInterpretException'),
+    ('RETURN = nosuchfn();', 'QueryInterpretException'), ('RETURN = nosuchfn(1, [2]);', 'QueryInterpretException'),
+    ('RETURN = nop(1);', 'QueryInterpretException'), ('RETURN = limit_events();', 'QueryInterpretException'),
+    ('RETURN = query_bucket();', 'QueryInterpretException'), ('RETURN = concat([1]);', 'QueryInterpretException'),
+    ('RETURN = query_bucket("b1", 2, 3);', 'QueryInterpretException'), ('RETURN = sort_by_timestamp([], []);', 'QueryInterpretException'),
+    ('RETURN = limit_events(1, 2);', 'QueryFunctionException'), ('RETURN = query_bucket(1);', 'QueryFunctionException'),
+    ('RETURN = filter_keyvals([], 1, []);', 'QueryFunctionException'), ('RETURN = limit_events([], "x");', 'QueryFunctionException'),
+    ('RETURN = sort_by_timestamp("x");', 'QueryFunctionException'), ('RETURN = merge_events_by_keys([], "k");', 'QueryFunctionException'),
+    ('RETURN = query_bucket("nosuch");', 'QueryFunctionException'), ('RETURN = query_bucket_eventcount("nosuch");', 'QueryFunctionException'),
+    ('RETURN = ;', 'QueryParseException'), ('RETURN = [1,;', 'QueryParseException'), ('= 1;', 'QueryParseException'),
+    ('RETURN 1;', 'QueryParseException'), ('1 = 2;', 'QueryParseException'), ('RETURN = [1 2];', 'QueryParseException'),
+    ('RETURN = {"a" 1};', 'QueryParseException'), ('RETURN = {1: 2};', 'QueryParseException'), ('RETURN = nop(;', 'QueryParseException'),
+    ('RETURN = "abc;', 'QueryParseException'), ('x = 1;', 'QueryParseException'), ('RETURN = 1 2;', 'QueryParseException'),
+    ('x y = 1; RETURN = 1;', 'QueryParseException'), ('RETURN = [;', 'QueryParseException'), ('RETURN = {;', 'QueryParseException'),
+    ('RETURN = 1; true;', 'QueryParseException'),
+]
+
+
 def c17(seed, n):
     rng = random.Random(seed)
     ds = make_ds()
     bad = []
     stats = {"value": 0, "query-error": 0, "builtin-body": 0}
+    for text, want in ERROR_KINDS:
+        r = run_query(text, ds)
+        got = type(r[1]).__name__ if r[0] == "raise" else r[0]
+        if got != want:
+            bad.append({"text": text, "problem": f"wrong kind of answer: {want} expected, got {got}" + (f" ({r[1]})" if r[0] == "raise" else "")})
+    stats["error-kind cases"] = len(ERROR_KINDS)
     for k in range(n):
         if rng.random() < 0.35:
             text = "".join(rng.choice(ALPHABET) for _ in range(rng.randint(0, 14)))
